@@ -33,11 +33,13 @@ TrLabeling   == IsEv("labeling")     /\ Labeling /\ Bind
 TrLen        == IsEv("len")          /\ LenCall  /\ Bind
 TrIsEmpty    == IsEv("is_empty")     /\ IsEmpty  /\ Bind
 TrClone      == IsEv("clone")        /\ Unch /\ ret' = <<"s", "ok">> /\ Bind
+\* clone_from into a destination with its own history: the result is a copy of the source, nothing else
+TrCloneFrom  == IsEv("clone_from")   /\ Unch /\ ret' = <<"s", "ok">> /\ Bind
 TrCapacity   == IsEv("capacity")     /\ NoEffect /\ Bind
 
 TraceNext == \/ TrReset \/ TrNewSet \/ TrTryUnion \/ TrUnion \/ TrFind \/ TrFindMut
              \/ TrTryFind \/ TrTryFindMut \/ TrEquiv \/ TrTryEquiv \/ TrLabeling
-             \/ TrLen \/ TrIsEmpty \/ TrClone \/ TrCapacity
+             \/ TrLen \/ TrIsEmpty \/ TrClone \/ TrCloneFrom \/ TrCapacity
 
 TraceSpec == TraceInit /\ [][TraceNext]_tvars
 
